@@ -167,4 +167,39 @@ theorem tick_applies_current (c : C14.Flush.Cfg) (s : C14.Flush.St) (e : Entry) 
     show e.id ∈ ch.applied
     rw [ha, ← hid]; simp
 
+/-! ## the name stamped on a response is the record's current request ID -/
+
+theorem eq_of_id_nodup {l : List C14.Flush.Entry} (hn : (C14.Flush.ids l).Nodup) {a b : C14.Flush.Entry}
+    (ha : a ∈ l) (hb : b ∈ l) (hid : a.id = b.id) : a = b := by
+  induction l with
+  | nil => cases ha
+  | cons x xs ih =>
+    simp only [C14.Flush.ids, List.map_cons, List.nodup_cons, List.mem_map, not_exists, not_and] at hn
+    rcases List.mem_cons.mp ha with rfl | ha' <;> rcases List.mem_cons.mp hb with rfl | hb'
+    · rfl
+    · exact absurd hid.symm (hn.1 b hb')
+    · exact absurd hid (hn.1 a ha')
+    · exact ih (by simpa [C14.Flush.ids] using hn.2) ha' hb'
+
+theorem curGen_of_mem (ch : C14.Flush.Chan) (hn : (C14.Flush.ids (ch.inf ++ ch.sh)).Nodup) (e : C14.Flush.Entry)
+    (he : e ∈ ch.inf ++ ch.sh) : curGen ch e.id = e.gen := by
+  unfold curGen
+  rcases hf : (ch.inf ++ ch.sh).find? (fun x => x.id == e.id) with _ | x
+  · have := List.find?_eq_none.1 hf e he
+    simp at this
+  · have hx := List.find?_some hf
+    have hxm := List.mem_of_find?_eq_some hf
+    have : x = e := eq_of_id_nodup hn hxm he (by simpa using hx)
+    rw [hf]; simp only; rw [this]
+
+/-- the name a ROB tick stamps on the response to its request number `n` -/
+def nameFn (σ : Comp) (n : Nat) : C14.Flush.Req :=
+  match σ.idOf[n]? with
+  | some r => (r.1, curGen σ.cu.s r.1)
+  | none => (0, 0)
+
+theorem nameRsps_eq (σ : Comp) (sys' : Sys) :
+    nameRsps σ sys' =
+      (sys'.rob.delivered.drop σ.sys.rob.delivered.length).map (fun d => (d.rspTo, nameFn σ d.rspTo)) := rfl
+
 end C15.Cu
